@@ -8,6 +8,15 @@
 //!   req = ["f"] (fast) | ["s", ms] (async sleep) | ["b", gate] (blocks the worker thread until the
 //!   gate is released);  gate release_ms: -2 = just before the call, -1 = only at the end,
 //!   k >= 0 = k ms after the call.
+//! Scheduling control (optional): "parks":[{"point":P, "conn":i|null, "after":A, "ms":k}..] arms the
+//!   one-shot failpoint `verif_trace::gate(P, ..)` of the server: the first thread reaching trace point P
+//!   is parked there.  P in after_recv | after_spawn | acc_after_accept (armed right before client `conn`
+//!   connects: the regular loop is parked holding that connection; optional "worker":w restricts the
+//!   failpoint to that worker's thread) or after_shutdown | after_close |
+//!   after_drain | after_drain_end | before_signal | before_notify (armed right before the call).
+//!   Release: A = "before_call" (just before the call), "call" (k ms after the call), "parked" (k ms
+//!   after the thread parked), "cmd" (k ms after the shutdown command has been put into the parked
+//!   worker's inbox: the command has overtaken whatever the parked worker holds).
 //! Connections are identified by their index in "conns" (probes: 900+i); never by port.
 use pavex::Response;
 use pavex::connection::ConnectionInfo;
@@ -157,6 +166,50 @@ async fn read_response(s: &mut TcpStream, buf: &mut Vec<u8>) -> Option<(u16, Vec
     }
 }
 
+/// One armed failpoint of the scenario.
+#[derive(Clone, Debug)]
+struct Park {
+    point: String,
+    /// arm right before this client connects (None: right before the call)
+    conn: Option<usize>,
+    /// only this worker's thread (None: whichever thread gets there first)
+    worker: Option<u64>,
+    after: String,
+    ms: u64,
+    /// gate id once armed
+    id: Option<u64>,
+}
+
+const CONN_POINTS: [&str; 3] = ["after_recv", "after_spawn", "acc_after_accept"];
+const CALL_POINTS: [&str; 6] =
+    ["after_shutdown", "after_close", "after_drain", "after_drain_end", "before_signal", "before_notify"];
+
+impl Park {
+    fn parse(j: &Json, n_conns: usize) -> Option<Park> {
+        let point = j.get("point")?.as_str()?.to_string();
+        let conn = match j.get("conn") {
+            None => None,
+            Some(v) if v.is_null() => None,
+            Some(v) => Some(v.as_u64()? as usize),
+        };
+        let worker = match j.get("worker") {
+            None => None,
+            Some(v) if v.is_null() => None,
+            Some(v) => Some(v.as_u64()?),
+        };
+        let after = j.get("after")?.as_str()?.to_string();
+        let ms = j.get("ms").and_then(|v| v.as_u64()).unwrap_or(0);
+        let ok_point = match conn {
+            Some(c) => c < n_conns && CONN_POINTS.contains(&point.as_str()),
+            None => CALL_POINTS.contains(&point.as_str()) && after != "before_call",
+        };
+        if !ok_point || !["before_call", "call", "parked", "cmd"].contains(&after.as_str()) || ms > 5000 {
+            return None;
+        }
+        Some(Park { point, conn, worker, after, ms, id: None })
+    }
+}
+
 struct Signals {
     post: tokio::sync::watch::Sender<bool>,
     finish: tokio::sync::watch::Sender<bool>,
@@ -243,11 +296,12 @@ fn mode_of(j: &Json, key_mode: &str, key_timeout: &str) -> Option<ShutdownMode> 
 
 struct View {
     ev: Vec<vt::Event>,
+    parked: Vec<u64>,
 }
 
 impl View {
     fn now() -> View {
-        View { ev: vt::snapshot() }
+        View { ev: vt::snapshot(), parked: vt::parked_now() }
     }
     fn has(&self, kind: &str, a: u64) -> bool {
         self.ev.iter().any(|e| e.kind == kind && e.a == a)
@@ -265,6 +319,10 @@ impl View {
     /// is some handler currently running (begun, not ended) on a connection of worker w?
     /// (a running *blocking* handler means the worker thread is stuck)
     fn busy_blocking(&self, w: u64, blocking: &HashMap<(u64, u64), bool>) -> bool {
+        // parked at a failpoint (the acceptor parked: nothing moves)
+        if self.parked.iter().any(|p| *p == w || *p == vt::ACCEPTOR) {
+            return true;
+        }
         self.ev.iter().any(|e| {
             e.kind == "h_begin"
                 && blocking.get(&(e.a, e.b)).copied().unwrap_or(false)
@@ -315,8 +373,14 @@ async fn run_case(req: Json) -> Json {
         scripts.push((pre, post, race));
     }
     let second = req.get("second_call").filter(|v| !v.is_null()).cloned();
+    let mut parks: Vec<Park> = Vec::new();
+    for p in req.get("parks").and_then(|v| v.as_array()).cloned().unwrap_or_default() {
+        let Some(park) = Park::parse(&p, scripts.len()) else { return json!({"r":"bad-op"}) };
+        parks.push(park);
+    }
 
     // ---- start the real server -------------------------------------------------------------
+    vt::disarm_all();
     vt::reset();
     let gates = Arc::new(Gates { open: Mutex::new(vec![false; gates_spec.len()]), cv: Condvar::new() });
     let incoming = IncomingStream::bind("127.0.0.1:0".parse().unwrap()).await.unwrap();
@@ -340,6 +404,12 @@ async fn run_case(req: Json) -> Json {
         if *race {
             continue;
         }
+        let mut my_gates: Vec<u64> = Vec::new();
+        for p in parks.iter_mut().filter(|p| p.conn == Some(i)) {
+            let id = vt::arm(&p.point, p.worker);
+            p.id = Some(id);
+            my_gates.push(id);
+        }
         tasks.push(tokio::spawn(client(i, addr, pre.clone(), post.clone(), obs[i].clone(), post_rx.clone(), finish_rx.clone())));
         let o = obs[i].clone();
         if !wait_until(Duration::from_secs(2), || o.connected.load(Ordering::SeqCst) || o.finished.load(Ordering::SeqCst)).await {
@@ -358,7 +428,12 @@ async fn run_case(req: Json) -> Json {
             if v.has("drop_conn", port) {
                 return true;
             }
-            let Some(w) = v.worker_of(port) else { return false };
+            // a thread is parked at a failpoint armed for this connection: it holds the connection; the
+            // request (if any) must be on the wire before we go on
+            if my_gates.iter().any(|g| vt::parked(*g).is_some()) {
+                return pre.is_empty() || o.written.load(Ordering::SeqCst) >= 1;
+            }
+            let Some(w) = v.worker_of(port) else { return v.parked.contains(&vt::ACCEPTOR) };
             if pre.is_empty() {
                 return v.has("c_poll", port) || v.busy_blocking(w, &blocking);
             }
@@ -386,6 +461,13 @@ async fn run_case(req: Json) -> Json {
     for (g, rel) in gates_spec.iter().enumerate() {
         if *rel == -2 {
             gates.release(g);
+        }
+    }
+    for p in parks.iter_mut() {
+        match (p.conn, p.id) {
+            (Some(_), Some(id)) if p.after == "before_call" => vt::release(id),
+            (None, _) => p.id = Some(vt::arm(&p.point, p.worker)),
+            _ => {}
         }
     }
     if !call_delay.is_zero() {
@@ -442,6 +524,43 @@ async fn run_case(req: Json) -> Json {
         })
     };
 
+    // one task per failpoint: wait for its condition, then release it
+    let park_tasks: Vec<_> = parks
+        .iter()
+        .cloned()
+        .map(|p| {
+            tokio::spawn(async move {
+                let Some(id) = p.id else { return (None, None) };
+                if p.after == "before_call" {
+                    return (vt::parked(id), Some(0u64));
+                }
+                if p.after != "call" {
+                    // until a thread is parked there (it may never get there: Forced, or no connection to drain)
+                    wait_until(Duration::from_secs(3), || {
+                        vt::parked(id).is_some() || View::now().count("w_notify") == n_workers as usize
+                    })
+                    .await;
+                    if vt::parked(id).is_none() {
+                        vt::release(id);
+                        return (None, None);
+                    }
+                }
+                if p.after == "cmd" {
+                    if let Some(w) = vt::parked(id) {
+                        wait_until(Duration::from_secs(2), || {
+                            w == vt::ACCEPTOR && View::now().count("cmd_sent") > 0 || View::now().has("acc_send", w)
+                        })
+                        .await;
+                    }
+                }
+                let base = if p.after == "call" { t_call } else { Instant::now() };
+                tokio::time::sleep_until((base + Duration::from_millis(p.ms)).into()).await;
+                vt::release(id);
+                (vt::parked(id), Some(Instant::now().duration_since(t_call).as_micros() as u64))
+            })
+        })
+        .collect();
+
     let cap = match &req.get("mode").and_then(|v| v.as_str()) {
         Some("graceful") => Duration::from_millis(req.get("timeout_ms").and_then(|v| v.as_u64()).unwrap_or(0)) + Duration::from_secs(3),
         _ => Duration::from_secs(3),
@@ -480,6 +599,14 @@ async fn run_case(req: Json) -> Json {
 
     // ---- phase 4: wind down -------------------------------------------------------------------
     let _ = releaser.await;
+    let mut parks_obs: Vec<Json> = Vec::new();
+    for (p, t) in parks.iter().zip(park_tasks) {
+        let (who, rel) = tokio::time::timeout(Duration::from_secs(6), t).await.ok().and_then(|r| r.ok()).unwrap_or((None, None));
+        let who = who.or_else(|| p.id.and_then(vt::parked));
+        parks_obs.push(json!({"point": p.point, "hit": who.is_some(),
+            "worker": who.map(|w| if w == vt::ACCEPTOR { -1 } else { w as i64 }), "released_us": rel}));
+    }
+    vt::disarm_all();
     let all_done = |obs: &Vec<Arc<ClientObs>>| obs.iter().all(|o| o.script_done.load(Ordering::SeqCst));
     gates.release_all();
     wait_until(Duration::from_secs(3), || all_done(&obs)).await;
@@ -554,6 +681,8 @@ async fn run_case(req: Json) -> Json {
             "h_end" => json!(["hEnd", cid(e.a), e.b]),
             "c_end" => json!(["cEnd", cid(e.a), e.b == 1]),
             "gate_release" => json!(["gate", e.a]),
+            "park" | "unpark" => json!([e.kind, if e.a == vt::ACCEPTOR { -1 } else { e.a as i64 },
+                parks.iter().position(|p| p.id == Some(e.b)).map(|i| i as i64).unwrap_or(-1)]),
             other => json!(["unknown", other]),
         };
         trace.push(j);
@@ -578,7 +707,7 @@ async fn run_case(req: Json) -> Json {
     json!({
         "r": if port_reuse { "port-reuse" } else { "ok" },
         "trace": trace,
-        "obs": {"conns": conns_obs, "probes": probes, "stall": stall, "teardown": teardown,
+        "obs": {"conns": conns_obs, "parks": parks_obs, "probes": probes, "stall": stall, "teardown": teardown,
                  "returned": returned.is_some(), "handle_done": handle_done.is_some(),
                  "second_returned": second_res.is_some()},
         "timing": {"tus": tus, "returned_us": ms(returned), "handle_us": ms(handle_done),
